@@ -118,10 +118,11 @@ m("M66", ["C14", "C01"], "compiler/compiler.go", "\tif c.generateSourceMap {\n\t
 m("M67", ["C15"], "ast/ast.go", "\tcw.WriteNewline()\n\tcw.WriteLeadingComments(bs.RBrace.LeadingComments)\n\tcw.WriteIndent()\n\tcw.WriteRune('}')", "\tcw.WriteNewline()\n\tcw.WriteIndent()\n\tcw.WriteRune('}')", note="comments before a closing brace dropped")
 m("M68", ["C15"], "lexer/lexer.go", "\t\t\t\tl.hadNewlineBefore = true\n\t\t\t\tl.leadingComments = append(l.leadingComments, \"\")", "\t\t\t\tl.hadNewlineBefore = true", note="blank lines not recorded")
 m("M69", ["C15", "C01"], "ast/code_writer_comments.go", "\tif !cw.PrettyPrint || len(comments) == 0 {", "\tif len(comments) == 0 {", note="comments replayed in compact mode")
-m("M70", [], "lexer/lexer.go", 'strings.TrimRight(comment.String(), " \\r")', 'strings.TrimRight(comment.String(), " \\t\\r")', expect="survive", note="comment text also right-trimmed of tabs: must not alarm (modulo trailing white space)")
+m("M70", [], "lexer/lexer.go", 'strings.TrimRight(comment.String(), " \\t\\r")', 'strings.TrimRight(comment.String(), " \\t\\r\\f")', expect="survive", note="comment text also right-trimmed of form feeds: must not alarm (modulo trailing white space)")
 m("M71", ["C15"], "ast/code_writer_comments.go", "\t\t} else if i == 0 {\n\t\t\tif isComment {", "\t\t} else if i == 0 {\n\t\t\tif !isComment {", note="trailing-comment rule inverted")
 m("M90", ["C02", "C01"], "parser/parser_functions.go", "if p.CurrentToken.Type == token.INCREMENT || p.CurrentToken.Type == token.DECREMENT {", "if _, isPostfix := left.(*ast.PostfixExpression); isPostfix {", note="nested postfix update followed by a line-leading ( or [ continues again (fix 008663d undone)")
-m("M91", ["C06", "C08"], "lexer/lexer.go", 'strings.TrimRight(comment.String(), " \\r")', 'strings.TrimRight(comment.String(), " ")', note="CR of a CRLF line end stays in the comment text (fix aa81149 undone)")
+m("M91", ["C06", "C08"], "lexer/lexer.go", 'strings.TrimRight(comment.String(), " \\t\\r")', 'strings.TrimRight(comment.String(), " \\t")', note="CR of a CRLF line end stays in the comment text (fix aa81149 undone)")
+m("M92", ["C06"], "lexer/lexer.go", 'strings.TrimRight(comment.String(), " \\t\\r")', 'strings.TrimRight(comment.String(), " \\r")', note="trailing tabs stay in the comment text (fix 54c3eeb undone)")
 m("M89", ["C15"], "ast/ast.go", "\tcw.WriteLeadingComments(p.EOF.LeadingComments)\n", "", note="comments before end of input dropped again")
 # ---- context (C16)
 m("M72", ["C16"], "parser/parser_functions.go", "\tp.PushContext(FunctionContext)\n\tdefer p.PopContext()\n\tfe.Body = p.ParseBlockStatement()", "\tp.PushContext(FunctionContext)\n\tfe.Body = p.ParseBlockStatement()", note="function expressions never pop their context")
